@@ -60,6 +60,10 @@ class Recon:
             return ('const', n.value)
         if isinstance(n, ast.Name):
             if n.id in env:
+                v = env.get('__views__', {}).get(n.id)
+                if v is not None and isinstance(n.ctx, ast.Load) and env.get(v[0]) is not v[1] and env.get(v[0]) != v[1]:
+                    # numpy basic slicing returns a view: the name now shows the array as it is *after* the stores made since
+                    self.events.append(Event('stale_view', tuple(env.get('__conds__', ())), (n.id, v[0], v[2]), n))
                 return env[n.id]
             return ('name', self._qual(n.id))
         if isinstance(n, ast.Attribute):
@@ -253,6 +257,24 @@ class Recon:
                 base = env[tgt.value.id]
                 env[tgt.value.id] = ('setattr', base, tgt.attr, val)
 
+    def _note_view(self, s, env):
+        """x = a[..., :, ...] with a basic index (slices and integer constants only) binds x to a view of a"""
+        views = dict(env.get('__views__', {}))
+        for t in s.targets:
+            if isinstance(t, ast.Name):
+                views.pop(t.id, None)
+        if len(s.targets) == 1 and isinstance(s.targets[0], ast.Name) and isinstance(s.value, ast.Subscript) and isinstance(s.value.value, ast.Name) \
+                and s.value.value.id in env:
+            idx = s.value.slice
+            parts = idx.elts if isinstance(idx, ast.Tuple) else [idx]
+            basic = all(isinstance(p_, ast.Slice) or (isinstance(p_, ast.Constant) and isinstance(p_.value, int)) or
+                        (isinstance(p_, ast.UnaryOp) and isinstance(p_.operand, ast.Constant)) for p_ in parts)
+            if basic and any(isinstance(p_, ast.Slice) for p_ in parts):
+                root = s.value.value.id
+                if root != s.targets[0].id:         # x = x[1:] rebinds x, the old array is not written to afterwards
+                    views[s.targets[0].id] = (root, env[root], ast.unparse(s.value))
+        env['__views__'] = views
+
     def block(self, stmts, env, conds):
         # guard clauses: after `if c: continue/return/raise` the rest of the block runs under (c, False), exactly as if it
         # had been written in the else arm
@@ -272,6 +294,7 @@ class Recon:
             pass
         elif isinstance(s, ast.Assign):
             val = self.ex(s.value, env)
+            self._note_view(s, env)
             if len(s.targets) == 1 and isinstance(s.targets[0], ast.Name) and s.targets[0].id in env and val[0] == 'bin':
                 # x = x op e (also through a temporary holding x) is read as x op= e; decided on terms, not on syntax
                 cur = env[s.targets[0].id]
